@@ -3,6 +3,7 @@ import TF.Proofs.PolySpecNtt
 import TF.Proofs.PolyNttBridge
 import TF.Proofs.PolyNttBridgeX
 import TF.Proofs.GenBridgePoly
+import TF.Proofs.GenBridgePolyMul
 /-!
 # C07 — every polynomial multiplication strategy returns the exact ring product
 
@@ -625,9 +626,10 @@ and the NTT-based `fast_multiply` are **also regenerated from the text of `polyn
 operations as parameters, mixed products `FF × FF2 → Output` as an explicit parameter, callees that are not translated — the
 `fast_*` arms of the dispatchers, `ntt`/`intt` — as parameters; `Option` = may panic).  Proved equal to the hand models of
 `TF/Model/Poly.lean` / `PolyMul.lean` for **every** record of operations, every storage (proofs: `TF/Proofs/GenBridgePoly.lean`).
-`naive_multiply` / `slow_square` (index double loops) are regenerated and evaluated by the driver next to the hand model
-(`GEN-MISMATCH`); their bridge to `mulRows` / `squareRows` needs the additive laws of the coefficient type and is not proved
-here (see tools/props/C07.json). -/
+`naive_multiply` / `slow_square` (index double loops) re-associate the sums of the hand models `mulRows` / `squareRows`; their
+bridge needs the additive monoid laws of the coefficient type of the result (`AddLaws`) and is proved in the section
+"the index double loops" at the end of this file (P07), together with the transfer of `naive_multiply_spec`, `mul_spec`,
+`slow_square_spec` and of the dispatchers to the regenerated code over every Mathlib field. -/
 namespace TF.C07
 open TF TF.Model.Poly
 
@@ -720,4 +722,121 @@ theorem gen_products_transfer {T : Transform K} {pts : Nat → Nat → K} (hT : 
 example : TransformSpec exampleTransform examplePts := exampleTransform_spec
 
 end transfer
+end TF.C07
+
+/-! ## the index double loops `naive_multiply` / `slow_square` regenerated from source — P07
+
+The regenerated loops (`product[i + j] = product[i + j] + self[i] * other[j]` over `0..=degree_lhs × 0..=degree_rhs`;
+`sq[2i] += cᵢ²`, `sq[i + j] += (two·cᵢ)·cⱼ` for `j > i` over `coefficients()`) start from a zero vector and add row after row;
+the hand models `mulRows` / `squareRows` add row `i` to the already summed later rows.  The two agree **only under laws
+of `add`**: `AddLaws F` = `add` is associative and `zero` is a left and a right unit — exactly what the proof uses (each of the
+three is needed already for operands of length ≤ 3; commutativity is not needed, `AddLaws.of_comm` gives the right unit from the
+left one for a commutative `add`; no law of `mul`, `two = one + one` is the same term on both sides).  Every Mathlib field
+satisfies them (`add_laws_of_field`), so the product theorems hold for the regenerated code with no hypothesis left.
+`gen = some model` also says: no index panic (`product[i + j]`, `self[i]`, `other[j]`, `coefficients[j]`) for any storage.
+Proofs: `TF/Proofs/GenBridgePolyMul.lean`. -/
+namespace TF.C07
+open TF TF.Model.Poly TF.GenBridge.Poly
+
+/-- a commutative associative `add` with left unit `zero` has the laws the bridges need -/
+theorem add_laws_of_comm {α : Type} (F : FieldOps α) (hc : ∀ a b, F.add a b = F.add b a)
+    (ha : ∀ a b c, F.add (F.add a b) c = F.add a (F.add b c)) (hz : ∀ a, F.add F.zero a = a) : AddLaws F :=
+  AddLaws.of_comm hc ha hz
+example : AddLaws (FieldOps.ofField ℚ) := add_laws_of_comm _ (fun a b => add_comm a b) (fun a b c => add_assoc a b c) zero_add
+
+/-- the operation record of every Mathlib field satisfies `AddLaws` -/
+theorem add_laws_of_field {K : Type} [Field K] (root : Nat → Option K) : AddLaws (FieldOps.ofField K root) :=
+  ⟨fun a b c => add_assoc a b c, fun a => zero_add a, fun a => add_zero a⟩
+example : AddLaws (FieldOps.ofField ℚ) := add_laws_of_field _
+
+/-- **regenerated `naive_multiply<FF2>` = hand model**, three coefficient types, any mixed product, every storage of the
+    operands (stored leading zeros, zero operands); it never panics -/
+theorem gen_naive_multiply_eq_model {α β γ : Type} (F : FieldOps α) (F2 : FieldOps β) (F3 : FieldOps γ) (h : AddLaws F3)
+    (mul : α → β → γ) (a : List α) (b : List β) :
+    TF.Gen.Poly.naive_multiply F F2 F3 mul a b = some (naiveMultiplyG F F2 F3 mul a b) :=
+  naive_multiply_eq F F2 F3 h mul a b
+example : TF.Gen.Poly.naive_multiply bfieldOps bfieldOps bfieldOps bfieldOps.mul [1, 2, 0] [3, 1, 5, 0] = some [3, 7, 7, 10] ∧
+    naiveMultiplyG bfieldOps bfieldOps bfieldOps bfieldOps.mul [1, 2, 0] [3, 1, 5, 0] = [3, 7, 7, 10] := by decide
+
+/-- **regenerated `slow_square` = hand model**, every storage; it never panics -/
+theorem gen_slow_square_eq_model {α : Type} (F : FieldOps α) (h : AddLaws F) (p : List α) :
+    TF.Gen.Poly.slow_square F p = some (slowSquare F p) := slow_square_eq F h p
+example : TF.Gen.Poly.slow_square bfieldOps [1, 2, 3, 0] = some [1, 4, 10, 12, 9] ∧
+    slowSquare bfieldOps [1, 2, 3, 0] = [1, 4, 10, 12, 9] := by decide
+
+/-- the hypothesis `AddLaws` cannot be dropped: with an `add` that ignores its left argument the regenerated loop and the
+    hand model differ (a concrete record, a concrete operand pair) -/
+theorem gen_naive_multiply_needs_laws :
+    ∃ (F : FieldOps Nat) (a b : List Nat),
+      TF.Gen.Poly.naive_multiply F F F F.mul a b ≠ some (naiveMultiplyG F F F F.mul a b) :=
+  ⟨{ bfieldOps with add := fun a _ => a }, [1, 1], [1, 1], by decide⟩
+
+section transfer2
+variable {K : Type} [Field K] (root : Nat → Option K)
+local notation "FK" => FieldOps.ofField K root
+open Polynomial
+
+/-- **`naive_multiply_spec` and `mul_spec` for the regenerated code**: over every field the regenerated `naive_multiply` and
+    the regenerated `Mul` operator return (never panic) and return the ring product, for every storage -/
+theorem gen_naive_multiply_transfer (a b : List K) :
+    (∃ r, TF.Gen.Poly.naive_multiply FK FK FK (FK).mul a b = some r ∧ denote r = denote a * denote b) ∧
+    (∃ r, TF.Gen.Poly.mul FK FK FK (FK).mul a b = some r ∧ denote r = denote a * denote b) := by
+  have h := gen_naive_multiply_eq_model FK FK FK (add_laws_of_field root) (FK).mul a b
+  refine ⟨⟨_, h, naive_multiply_spec root a b⟩, ⟨_, ?_, naive_multiply_spec root a b⟩⟩
+  rw [gen_mul_is_naive_multiply]; exact h
+example : ∃ r, TF.Gen.Poly.naive_multiply (FieldOps.ofField ℚ) (FieldOps.ofField ℚ) (FieldOps.ofField ℚ)
+    (FieldOps.ofField ℚ).mul [1, 2, 0] [0, 3] = some r ∧ denote r = denote ([1, 2, 0] : List ℚ) * denote ([0, 3] : List ℚ) :=
+  (gen_naive_multiply_transfer _ _ _).1
+
+/-- **`slow_square_spec` for the regenerated code** -/
+theorem gen_slow_square_transfer (p : List K) :
+    ∃ r, TF.Gen.Poly.slow_square FK p = some r ∧ denote r = denote p ^ 2 :=
+  ⟨_, gen_slow_square_eq_model FK (add_laws_of_field root) p, slow_square_spec root p⟩
+example : ∃ r, TF.Gen.Poly.slow_square (FieldOps.ofField ℚ) [1, 2, 0] = some r ∧ denote r = denote ([1, 2, 0] : List ℚ) ^ 2 :=
+  gen_slow_square_transfer _ _
+
+/-- **`naive_multiply_mixed_spec` for the regenerated code**: operands over different fields embedded into the field of the
+    result -/
+theorem gen_naive_multiply_mixed_transfer {K₁ K₂ : Type} [Field K₁] [Field K₂] (φ₁ : K₁ →+* K) (φ₂ : K₂ →+* K)
+    (root₁ : Nat → Option K₁) (root₂ : Nat → Option K₂) (a : List K₁) (b : List K₂) :
+    ∃ r, TF.Gen.Poly.naive_multiply (FieldOps.ofField K₁ root₁) (FieldOps.ofField K₂ root₂) FK (fun x y => φ₁ x * φ₂ y) a b
+        = some r ∧ denote r = (denote a).map φ₁ * (denote b).map φ₂ :=
+  ⟨_, gen_naive_multiply_eq_model _ _ FK (add_laws_of_field root) _ a b, naive_multiply_mixed_spec root φ₁ φ₂ root₁ root₂ a b⟩
+example : ∃ r, TF.Gen.Poly.naive_multiply (FieldOps.ofField ℚ) (FieldOps.ofField ℚ) (FieldOps.ofField ℚ)
+    (fun x y => (RingHom.id ℚ) x * (RingHom.id ℚ) y) [1, 0] [2] = some r ∧
+      denote r = (denote ([1, 0] : List ℚ)).map (RingHom.id ℚ) * (denote ([2] : List ℚ)).map (RingHom.id ℚ) :=
+  gen_naive_multiply_mixed_transfer _ _ _ _ _ _ _
+
+/-- **`multiply_spec` / `square_spec` for the regenerated dispatchers on top of the regenerated `fast_multiply` /
+    `fast_square`** (the transforms stay parameters with `TransformSpec`, property C06): whenever the regenerated `multiply` /
+    `square` returns, it returns the product / the square — with the regenerated thresholds, every storage -/
+theorem gen_dispatchers_transfer {T : Transform K} {pts : Nat → Nat → K} (hT : TransformSpec T pts) (a b p r : List K) :
+    (TF.Gen.Poly.multiply FK FK FK (FK).mul (TF.Gen.Poly.fast_multiply FK FK FK (FK).mul T.ntt T.ntt T.intt) a b = some r →
+      denote r = denote a * denote b) ∧
+    (TF.Gen.Poly.square FK (TF.Gen.Poly.fast_square FK T.ntt T.intt) p = some r → denote r = denote p ^ 2) := by
+  constructor
+  · intro h
+    rw [gen_multiply_dispatch] at h
+    split at h
+    · rw [gen_naive_multiply_eq_model FK FK FK (add_laws_of_field root)] at h
+      injection h with h; subst h
+      exact naive_multiply_spec root a b
+    · rw [gen_fast_multiply_eq_model] at h
+      exact fast_multiply_spec root hT a b r h
+  · intro h
+    rw [gen_square_dispatch] at h
+    split at h
+    · next hz =>
+      injection h with h; subst h
+      have : denote p = 0 := (degree_eq_neg_one_iff root p).1 hz
+      simp [this]
+    · split at h
+      · rw [gen_fast_square_eq_model] at h
+        exact fast_square_spec root hT p r h
+      · rw [gen_slow_square_eq_model FK (add_laws_of_field root)] at h
+        injection h with h; subst h
+        exact slow_square_spec root p
+example : TransformSpec exampleTransform examplePts := exampleTransform_spec
+
+end transfer2
 end TF.C07
